@@ -32,3 +32,87 @@ for k in 'qwerty':
   d[k] = 1
 assert list(d) == list('qwerty')
 print('axiom conformance ok')
+
+# ---- the list / dict / str semantics pyvc/world.py and pyvc/sym.py assume, on random instances ----
+import random
+rng = random.Random(0)
+
+
+def clamp_lo(k, n):      # VList.suffix / prefix index normalisation as encoded in pyvc/sym.py
+  return (max(n + k, 0) if k < 0 else min(k, n))
+
+
+N = 0
+for _ in range(4000):
+  n = rng.randrange(0, 6)
+  xs = [rng.choice('abc') for _ in range(n)]
+  k = rng.randrange(-7, 8)
+  s = clamp_lo(k, n)
+  assert xs[k:] == [xs[i + s] for i in range(n - s)], (xs, k)          # suffix view
+  assert xs[:k] == xs[:clamp_lo(k, n)] and len(xs[:k]) == clamp_lo(k, n)   # prefix view
+  assert xs[::-1] == [xs[n - 1 - i] for i in range(n)] == list(reversed(xs))
+  if n:
+    ys = list(xs); assert ys.pop(-1) == xs[-1] and ys == xs[:-1]       # pop(-1) is pop()
+    zs = list(xs); assert zs.pop() == xs[n - 1] and zs == xs[:n - 1]
+    *init, last = xs
+    assert init == xs[:-1] and last == xs[-1]                          # starred unpacking
+  # dict(zip(keys, vals)): present iff some pair has the key; the LAST such pair wins
+  m = rng.randrange(0, 6)
+  vs = [rng.randrange(10) for _ in range(m)]
+  d = dict(zip(xs, vs))
+  L = min(n, m)
+  for key in 'abc':
+    idx = [i for i in range(L) if xs[i] == key]
+    assert (key in d) == bool(idx)
+    if idx:
+      assert d[key] == vs[idx[-1]]
+  # update: right operand wins, keys are the union
+  e = {rng.choice('abc'): rng.randrange(10) for _ in range(rng.randrange(3))}
+  u = dict(d); u.update(e)
+  assert set(u) == set(d) | set(e) and all(u[k] == (e[k] if k in e else d[k]) for k in u)
+  # enumerate / zip lengths, comprehension = pointwise map, filter keeps order
+  assert [(i, x) for i, x in enumerate(xs)] == list(zip(range(n), xs))
+  assert [x + '!' for x in xs] == [xs[i] + '!' for i in range(n)]
+  flt = [x for x in xs if x != 'a']
+  assert flt == [xs[i] for i in range(n) if xs[i] != 'a']
+  # strings: concatenation is associative with unit ''; split/join round trips
+  a, b, c3 = (''.join(rng.choice('ab.') for _ in range(rng.randrange(3))) for _ in range(3))
+  assert (a + b) + c3 == a + (b + c3) == f'{a}{b}{c3}' == '{}{}{}'.format(a, b, c3)
+  assert a + '' == a == '' + a
+  assert '.'.join(a.split('.')) == a and len(a.split('.')) >= 1
+  comps = [rng.choice(['x', 'yy', 'z1']) for _ in range(rng.randrange(1, 5))]
+  assert '.'.join(comps).split('.') == comps                            # dot-free components
+  j = rng.randrange(1, len(comps) + 1)
+  assert '.'.join(comps[-j:]).split('.') == comps[len(comps) - j:]      # suffix of the components
+  t = a + '/' + b
+  assert t.rsplit('/', 1) == [t[:t.rindex('/')], t[t.rindex('/') + 1:]]
+  assert (a + b == '') == (a == '' and b == '')
+  N += 1
+# object() is a fresh object; getattr with default; UnboundLocalError is a NameError
+sentinel = object()
+assert all(sentinel is not v for v in (None, 0, '', (), sentinel.__class__))
+assert getattr(sentinel, 'nope', 7) == 7
+assert issubclass(UnboundLocalError, NameError)
+# a generator context manager of the inlined shape runs `fin` on both exits
+import contextlib
+log = []
+
+
+@contextlib.contextmanager
+def cm():
+  log.append('pre')
+  try:
+    yield
+  finally:
+    log.append('fin')
+
+
+with cm():
+  pass
+try:
+  with cm():
+    raise KeyError
+except KeyError:
+  pass
+assert log == ['pre', 'fin', 'pre', 'fin']
+print('library semantics conformance ok on', N, 'random instances')
